@@ -9,7 +9,7 @@ MANIFEST = {
     "technique": "Lean 4 proof (corollary of the print/parse round trip) + translator tie (prec) + differential correspondence + bounded search with the real format.Source",
 }
 
-RULE = ("as C19: all corpus files (a third of the .go files per seed in quick), regression inputs, N generated programs with perturbed layout, N/2 printed AST mutants, corpus expressions; "
+RULE = ("as C19: all corpus files (a third of the .go files per seed in quick), regression inputs, N template programs + N grammar-directed programs (harness/exprx/gram.go: every ast.Stmt/ast.Decl kind, labelled statements incl. empty ones in every position, `;`-separated and empty statements, goto/fallthrough, redundant parentheses to depth 3 in every expression/type position, import blocks with named/dot/blank imports, duplicate paths under different names, raw-string and escaped path spellings, comments and groups; text written by the generator itself with random blanks / line breaks / comments, not by the printer under test) with perturbed layout, N/2 printed AST mutants, corpus expressions; "
         "a case is the pair (source, twice-formatted source); non-trivial = valid source longer than 40 bytes")
 
 
